@@ -52,7 +52,7 @@ Effective(r, s, sh) ==
 Verdict(o) ==
   LET rej == \E s \in 1..3 : RejectStream(o.rd[s], s, o.sh)
       eff == [s \in 1..3 |-> Effective(o.rd[s], s, o.sh)]
-      late == \E s \in 1..3 : o.rd[s].t > T_PATH
+      late == \E s \in 1..3 : o.rd[s].t > T_PATH \/ o.rd[s].t < 0
       inputBad == \/ o.input = -2
                   \/ o.input >= 0 /\ eff[1].t # T_PIPE
       forkBad == (o.fork /\ o.argv) \/ (~o.fork /\ ~o.argv)
